@@ -68,7 +68,8 @@ pub fn relevant(prop: &str, v: &Violation) -> bool {
         "C05" => safety && v.has_upgrade_store,
         "C11" => c1to5 && v.after_fault,
         "C14" => safety && v.has_stash,
-        "C20" => c1to5 && v.multi_arena,
+        "C20" => (c1to5 && v.multi_arena) || (v.prop == "C14" && v.multi_arena && matches!(v.tag, "contains-wrong" | "try-fetch-wrong" | "fetch-foreign-accepted")),
+        "C10" => v.prop == "C04" && v.tag == "count-after-drop",
         "C19" => false,
         _ => false,
     }
